@@ -537,12 +537,19 @@ Definition setC (o : opts) (l : list rstate) : list rstate := rev (c_scan o (rev
 Definition upd_head {A} (f : A -> A) (l : list A) : list A :=
   match l with [] => [] | x :: r => f x :: r end.
 
-(* dist(res0.N, reslast.C) < 1.35 *)
+(* the ring-closure test of assign_termini (after fix C02-F3): waters and other groups
+   without a backbone N (C) listed under the chain's id before (after) the peptide are not
+   part of the ring:
+     ring0    = first residue of the chain with "N" in map
+     ringlast = last residue of the chain with "C" in map
+     cyclic  <->  both exist and dist(ring0.N, ringlast.C) < 1.35 *)
+Definition first_N (l : list rstate) : option rstate := find (fun r => rd_hasN (rs_d r)) l.
+Definition last_C (l : list rstate) : option rstate := find (fun r => rd_hasC (rs_d r)) (rev l).
+
 Definition cyclic (close : nat -> nat -> bool) (l : list rstate) : bool :=
-  match l with
-  | [] => false
-  | r0 :: _ => let rl := last l r0 in
-               rd_hasN (rs_d r0) && rd_hasC (rs_d rl) && close (rd_id (rs_d r0)) (rd_id (rs_d rl))
+  match first_N l, last_C l with
+  | Some r0, Some rl => close (rd_id (rs_d r0)) (rd_id (rs_d rl))
+  | _, _ => false
   end.
 
 (* assign_termini(chain); None = IndexError (chain has 0 residues) *)
